@@ -36,6 +36,7 @@ def families(tier):
         "mpidec":   (0, BIG, 1),
         "s2kcount": (0, BIG, 1),                       # all 256 count octets
         "pkt":      (0, 16 * 24 - 1 if q else 16 * 80 - 1, 2 if q else 4),
+        "sigdec":   (0, BIG, 2),
     }
 
 def cfg_text(fam, lo, hi, w, seed):
@@ -145,6 +146,8 @@ def event_key(ev):
         k += ":v%s" % ev.get("v")
     elif ev.get("e") == "S2K":
         k += ":%s" % ("iterated" if ev.get("iter") else "salted")
+    elif ev.get("e") == "SigPrep":
+        k += ":%s" % ev.get("fn")
     return k
 
 def check_trace(name, events):
@@ -210,7 +213,7 @@ def run(tier, seed):
     kinds = {}
     for e in events:
         kinds[e["e"]] = kinds.get(e["e"], 0) + 1
-    for k in ("Fpr", "KeyId", "SigHash", "S2K", "KDF"):
+    for k in ("Fpr", "KeyId", "SigHash", "S2K", "KDF", "SigPrep"):
         if not kinds.get(k):
             raise vlib.Infra("no %s event recorded (vacuous trace)" % k)
     nchunk = 4 if quick else 8
